@@ -995,3 +995,42 @@ Proof.
     + pose proof (I_T _ _ _ HI 0 ltac:(lia)) as HT0. unfold T in HT0. rewrite (Hidle 0 ltac:(lia)) in HT0.
       pose proof (Hall 0 ltac:(lia)) as E0. rewrite <- Hclv in E0. lia.
 Qed.
+
+(** ---- object lifecycle: destroying / re-initialising the barrier right after a round ----
+    Once the last arriver has left its pop / wake loops and nobody has called wait again, no participant will ever
+    touch the barrier's words again in that round: every thread is idle or only has its (already fixed) return
+    value to deliver, no callback is pending, no POINT is ahead of anybody, and the words are exactly what
+    myth_barrier_init writes (count 0, empty stack).  So a destroy + re-init (any count) by a participant whose own
+    wait has returned cannot be observed by the participants that are released but not yet resumed. *)
+Lemma quiescent_after_release N g :
+  greach N g -> 1 <= gR (gh g) -> (forall u, u < N -> clv (gh g) u = gR (gh g)) ->
+  releasing (mn (st g) (ldr (gh g))) = false ->
+  bstate (st g) = 0%Z /\ top (st g) = None /\
+  forall t, t < N ->
+    cbk (st g) t = CbNone /\ (mn (st g) t = Idle \/ exists r, mn (st g) t = Done r) /\
+    label (st g) t false = String.EmptyString /\ label (st g) t true = String.EmptyString.
+Proof.
+  intros Hr HR Hcl Hrel. pose proof (inv_reachable _ _ Hr) as HI.
+  destruct (I_len _ _ _ HI) as (L1 & L2 & L3 & L4 & L5 & L6).
+  assert (Hth : forall t, t < N -> cbk (st g) t = CbNone /\ (mn (st g) t = Idle \/ exists r, mn (st g) t = Done r)).
+  { intros t Ht. pose proof (I_T _ _ _ HI t Ht) as HT. unfold T in HT. specialize (Hcl t Ht).
+    destruct (mn (st g) t) eqn:Em; try contradiction; try (exfalso; lia).
+    - split; [tauto|left; reflexivity].
+    - exfalso. destruct HT as (_ & _ & _ & _ & El). rewrite <- El, Em in Hrel. discriminate.
+    - exfalso. destruct HT as (_ & _ & _ & _ & El). rewrite <- El, Em in Hrel. discriminate.
+    - exfalso. destruct HT as (_ & _ & _ & _ & El). rewrite <- El, Em in Hrel. discriminate.
+    - exfalso. destruct HT as (Hc & [[Ha _]|(Ha & _ & _ & Hin)] & _); [lia|].
+      pose proof (I_ldr _ _ _ HI HR) as HG. unfold GL in HG.
+      destruct (mn (st g) (ldr (gh g))); try discriminate; destruct HG as [E1 E2]; rewrite E1, E2 in Hin;
+        destruct Hin as [[]|[]].
+    - split; [tauto|right; eauto]. }
+  refine (conj _ (conj _ _)).
+  - destruct (I_arrs _ _ _ HI) as (A1 & _ & A3). destruct (arrs (gh g)) as [|y r] eqn:Ea; [exact A1|exfalso].
+    destruct (A3 y (or_introl eq_refl)) as [Hy Hay]. pose proof (I_T _ _ _ HI y Hy) as HTy. unfold T in HTy.
+    destruct (Hth y Hy) as [_ [E|[r0 E]]]; rewrite E in HTy; lia.
+  - destruct (I_stk _ _ _ HI) as (S1 & _ & S3 & _). destruct (stk (gh g)) as [|y r] eqn:Es; [exact S1|exfalso].
+    destruct (S3 y (or_introl eq_refl)) as (Hy & Hmy & _). destruct (Hth y Hy) as [_ [E|[r0 E]]]; congruence.
+  - intros t Ht. destruct (Hth t Ht) as [Hc Hm]. refine (conj Hc (conj Hm _)).
+    unfold label. rewrite (get_thread_lt (st g) t) by lia. unfold cbk in Hc. unfold mn in Hm. rewrite Hc.
+    destruct Hm as [->|[r ->]]; split; reflexivity.
+Qed.
